@@ -51,7 +51,7 @@ def run(ck):
     if not ck.build_harness() or not ck.driver():
         return
     # K-tie of the registry model: request sequences through the real TypeRegistry (verif hook)
-    out = ck.harness("c09reg", 3000 if ck.tier == "quick" else 100000)
+    out = ck.harness("c09reg", 6000 if ck.tier == "quick" else 100000)
     if out is not None and ck.run_driver(["c09"], os.path.join(out, "cases.txt"), os.path.join(out, "model.txt")):
         cases = common.read_lines(os.path.join(out, "cases.txt"))
         impl = common.read_lines(os.path.join(out, "impl.txt"))
